@@ -63,6 +63,9 @@ func validateStaticUpstream(upstream options.Upstream) []string {
 		return msgs
 	}
 
+	if upstream.StaticCode != nil && (*upstream.StaticCode < 100 || *upstream.StaticCode > 999) {
+		msgs = append(msgs, fmt.Sprintf("upstream %q has an invalid staticCode (%d), it must be a three digit HTTP status code", upstream.ID, *upstream.StaticCode))
+	}
 	if upstream.URI != "" {
 		msgs = append(msgs, fmt.Sprintf("upstream %q has uri, but is a static upstream, this will have no effect.", upstream.ID))
 	}
